@@ -76,7 +76,7 @@ def run(ctx):
         cases.append(c)
     cases += hc.udp_big_cases(rng, len(cases), 45 if T else 15)
     n_scripted = len(cases)
-    for v in ("local", "cachehit") * (3 if T else 1):
+    for v in ("local", "cachehit", "case", "case") * (3 if T else 1):
         cases.append(hc.follow_case(rng, len(cases), v))
     n_scripted = len(cases)
     n_pair = 16 if T else 5
